@@ -85,7 +85,7 @@ class IoWorld(World):
     @classmethod
     def deepen(cls, cfg, r):
         cfg["nsteps"] = min(cfg["nsteps"] * 3, 180)
-        cfg["max_obs"] = r.choice([40, 100, 300, 1100])
+        cfg["max_obs"] = r.choice([40, 100, 300, 1100] * 6 + [9000])     # a GPX file of 9000 fixes is over 1 MiB
         cfg["sessions"] = 3
 
     # ------------------------------------------------------------------- setup
